@@ -342,12 +342,13 @@ func init() {
 			"(A-order) no map iteration order reaches the output of an importer.",
 			"(K-builders-all) the pair builders build the postings of every booking they are given (no booking is skipped, so no transaction is left without postings);",
 			"(K-tx-nonempty) an importer builds the postings of a transaction from a list of pair builders only if that list has an element on every path (or under a test of its length): no transaction without bookings is printed;",
+			"(K-kv-keys) a constant under which an importer looks a header value up is a fixed point of the normalisation it applies to the keys it stores (strings functions folded on the constant);",
 		},
 		NotDecided: []string{
 			"row fidelity: one transaction per row, on the row's date, with the row's signed amount in the row's currency (which column is read, sign conventions, thousands separators): values of runtime strings, no structural reading;",
 			"zero-amount rows and other value-dependent printing paths.",
 		},
-		Rules: []Rule{RuleCStdout, RuleHQuotes, RuleKRegistryOrigin, RuleCPostings, RuleKBuildersAll, RuleFKeywords, RuleFMultiline, RuleFModelOnly, RuleKPrintPairs, RuleAOrder, RuleKTxNonempty},
+		Rules: []Rule{RuleCStdout, RuleHQuotes, RuleKRegistryOrigin, RuleCPostings, RuleKBuildersAll, RuleFKeywords, RuleFMultiline, RuleFModelOnly, RuleKPrintPairs, RuleAOrder, RuleKTxNonempty, RuleKKVKeys},
 	})
 }
 
